@@ -177,18 +177,36 @@ class Type1Tag(Tag):
                     offset += 1
                     continue
 
-                tlv_t, tlv_l, tlv_v = read_tlv(tag_memory, offset, skip_bytes)
+                try:
+                    tlv = read_tlv(tag_memory, offset, skip_bytes)
+                    tlv_t, tlv_l, tlv_v = tlv
+                except (Type1TagCommandError, ValueError):
+                    log.debug("tlv at address {0} is unreadable".format(offset))
+                    return None
                 log.debug("tlv type {0} at address {1}".format(tlv_t, offset))
 
                 if tlv_t == 0x00:
                     pass
                 elif tlv_t == 0x01:
-                    lock_bytes = get_lock_byte_range(tlv_v)
-                    skip_bytes.update(range(*lock_bytes.indices(0x800)))
+                    if tlv_l == 3:
+                        lock_bytes = get_lock_byte_range(tlv_v)
+                        skip_bytes.update(range(*lock_bytes.indices(0x800)))
+                    else:
+                        log.debug("lock tlv has wrong length")
                 elif tlv_t == 0x02:
-                    rsvd_bytes = get_rsvd_byte_range(tlv_v)
-                    skip_bytes.update(range(*rsvd_bytes.indices(0x800)))
+                    if tlv_l == 3:
+                        rsvd_bytes = get_rsvd_byte_range(tlv_v)
+                        skip_bytes.update(range(*rsvd_bytes.indices(0x800)))
+                    else:
+                        log.debug("memory tlv has wrong length")
                 elif tlv_t == 0x03:
+                    # the value bytes must fit into the data area
+                    head = 4 if tag_memory[offset+1] == 0xFF else 2
+                    room = set(range(offset + head, tag_memory_size))
+                    if ((offset + head > tag_memory_size
+                         or tlv_l > len(room - skip_bytes))):
+                        log.debug("ndef message tlv exceeds the data area")
+                        return None
                     ndef = tlv_v
                     break
                 elif tlv_t == 0xFE or tlv_t is None:
